@@ -180,6 +180,11 @@ def run(ctx):
   skipped = [1 for e, c in ctx.bad if c == "Finite" and e.get("site", {}).get("probe_on_collapsed_keypoint")]
   ctx.bad = [(e, c) for e, c in ctx.bad if not (c == "Finite" and e.get("site", {}).get("probe_on_collapsed_keypoint"))]
   ctx.extra["pwl_fn_nonfinite_sub_resolution_skipped"] = len(skipped)
+  # "up to floating-point rounding": with a keypoint segment shorter than ~2e-3 the rounding of (x - keypoint) in either
+  # float32 evaluation is amplified by 1 / length beyond the comparison tolerance; such pairs are not compared
+  ill = [1 for e, c in ctx.bad if c == "FnEqualsLayer" and e.get("site", {}).get("short_segment")]
+  ctx.bad = [(e, c) for e, c in ctx.bad if not (c == "FnEqualsLayer" and e.get("site", {}).get("short_segment"))]
+  ctx.extra["pwl_fn_vs_layer_ill_conditioned_skipped"] = len(ill)
   return ctx.finish()
 
 
